@@ -107,8 +107,8 @@ pub fn c02(h: &History, s: &Synth) -> Vec<Finding> {
 		let has_urgent = members.iter().any(|e| e.prio == Priority::Urgent) || b.ids.iter().any(|id| !idx.contains_key(id));
 		if !has_urgent && !members.is_empty() {
 			let t_first = members.iter().map(|e| e.t_before).min().unwrap();
-			let theta = throttle_lower_bound(h, t_first, b.t_enter) * 1_000_000;
-			if b.t_enter < t_first + theta {
+			let theta = throttle_lower_bound(h, t_first, b.t_enter).saturating_mul(1_000_000);
+			if b.t_enter < t_first.saturating_add(theta) {
 				out.push(f(
 					"C02/early/before-window-elapsed",
 					format!(
@@ -121,7 +121,7 @@ pub fn c02(h: &History, s: &Synth) -> Vec<Finding> {
 				));
 			}
 			if let Some(pe) = prev_exit {
-				if b.t_enter < pe + theta {
+				if b.t_enter < pe.saturating_add(theta) {
 					out.push(f(
 						"C02/early/second-action-in-window",
 						format!(
@@ -155,8 +155,8 @@ pub fn c02(h: &History, s: &Synth) -> Vec<Finding> {
 				}
 				// an urgent event is not debounced, whether or not a batch is pending: with a long window it must
 				// arrive well inside it (half the window is a generous bound; confirmed by repetition)
-				let theta = s.throttle_ms * 1_000_000;
-				if !busy && s.filter_delay_us == 0 && s.throttle_ms >= 200 && s.throttle_changes.is_empty() && lat > theta / 2 {
+				let theta = s.throttle_ms.saturating_mul(1_000_000);
+				if !busy && s.filter_delay_us == 0 && s.throttle_ms >= 200 && s.throttle_changes.is_empty() && lat > (theta / 2).min(5_000_000_000) {
 					out.push(f(
 						"C02/urgent-debounced",
 						format!("urgent event #{} was delivered {:.1} ms after it was sent: it waited for the {} ms window", e.id, lat as f64 / 1e6, s.throttle_ms),
@@ -169,7 +169,7 @@ pub fn c02(h: &History, s: &Synth) -> Vec<Finding> {
 	// same window => same batch (theta >= 40 ms, no slow filter): an accepted event fully sent in the first half
 	// of a batch's window must not appear in a later batch
 	if s.throttle_ms >= 40 && s.filter_delay_us == 0 && s.throttle_changes.is_empty() {
-		let theta = s.throttle_ms * 1_000_000;
+		let theta = s.throttle_ms.saturating_mul(1_000_000);
 		for (bi, b) in h.batches.iter().enumerate() {
 			let members: Vec<_> = b.ids.iter().filter_map(|id| idx.get(id)).collect();
 			if members.is_empty() || members.iter().any(|e| e.prio == Priority::Urgent) {
@@ -179,7 +179,7 @@ pub fn c02(h: &History, s: &Synth) -> Vec<Finding> {
 			for later in h.batches.iter().skip(bi + 1) {
 				for id in &later.ids {
 					if let Some(e) = idx.get(id) {
-						if e.prio != Priority::Urgent && e.t_after <= t_first + theta / 2 && e.t_before >= t_first {
+						if e.prio != Priority::Urgent && e.t_after <= t_first.saturating_add(theta / 2) && e.t_before >= t_first {
 							out.push(f(
 								"C02/window-split",
 								format!(
